@@ -19,7 +19,7 @@ PROPS = {
         level_note='verdict checks only on instances whose class is certified and tolerance-robust; reduced-LP vertices come from Bland-rule '
                    'runs under random column priorities (not a complete vertex enumeration)',
         technique='runtime monitoring: differential postsolve oracle (exact reference solver on the reduced LP, exact certificate check in the original space) under ASan+UBSan',
-        stages=lambda t: two_flavour('h_presolve', 1500, 6000, 10000, 40000)(t) + [memcheck_stage('h_presolve', 64, 400)(t)],
+        stages=lambda t: two_flavour('h_presolve', 1500, 6000, 30000, 100000)(t) + [memcheck_stage('h_presolve', 64, 400)(t)],
         minima=lambda t: {'memcheck.cases_completed': 60, 'c08.postsolves': 800, 'c08.vertices_postsolved': 300, 'c08.vanished_checked': 100, 'c08.verdicts_checked': 50,
                           'c08.bases_checked': 500, 'c08.keepbounds.on': 300, 'c08.keepbounds.off': 300},
         eval_counter='cases', distinct_set='nontrivial',
